@@ -340,7 +340,7 @@ pub fn run(ctx: &Ctx) {
     }
     rejects.finish(&rep);
     comp::drop_thread_compiler();
-    rep.finish();
+    crate::finish(&rep);
 }
 
 pub fn replay(case: &Value) -> Result<bool, String> {
